@@ -31,10 +31,10 @@ MATCHERS = {}          # id(Matcher) -> (ra, dec) copies taken at construction
 
 
 def cases(seed, tier):
-    n = 192 if tier == "quick" else 3840
+    n = 208 if tier == "quick" else 4160
     rng = np.random.default_rng([seed, 12])
     fams = ["uniform", "cap", "northpole", "southpole", "seam", "octant", "duplicates", "perturbed", "tiny-radius", "perturbed",
-            "tiny-radius", "edge-straddle"]
+            "tiny-radius", "edge-straddle", "repeat-radius"]
     for i in range(n):
         yield {"family": fams[i % len(fams)], "sub": int(rng.integers(0, 2**31))}
 
@@ -204,7 +204,7 @@ def make_sets(rng, fam):
         scale = r if r > 0 else 1e-6
         ra1, dec1 = H.offset(rng, ra2[k], dec2[k], scale * rng.choice([0.0, 0.5, 0.9, 0.999, 1.001, 1.1, 2.0], size=n1))
     else:
-        kind = {"cap": "any", "duplicates": "any", "perturbed": ["any", "seam", "northpole", "octant", "southpole"][int(rng.integers(0, 5))]}.get(fam, fam)
+        kind = {"cap": "any", "duplicates": "any", "repeat-radius": "any", "perturbed": ["any", "seam", "northpole", "octant", "southpole"][int(rng.integers(0, 5))]}.get(fam, fam)
         c = H.centre(rng, kind)
         size = float(10 ** rng.uniform(-4, np.log10(30)))
         if fam in ("northpole", "southpole"):
@@ -228,6 +228,14 @@ def make_sets(rng, fam):
             ra2[0], dec2[0] = (c[0] + 123.0) % 360, c[1]            # same point, other longitude
         if fam == "seam" and n2 > 2:
             ra2[0], ra2[1] = 0.0, 360.0
+    if fam == "repeat-radius":
+        # the same first-set position several times in a row, each time with another radius (growing, shrinking, random):
+        # whatever is computed for a position must not be carried over to the next entry with another radius
+        reps = rng.integers(2, 5, size=ra1.size)
+        ra1, dec1 = np.repeat(ra1, reps), np.repeat(dec1, reps)
+        mult = np.concatenate([{0: np.sort, 1: lambda v: np.sort(v)[::-1], 2: lambda v: v}[int(rng.integers(0, 3))](
+            rng.choice([0.05, 0.2, 0.5, 1.0, 1.5, 3.0], size=k)) for k in reps])
+        return ra1, dec1, ra2, dec2, np.minimum(r * mult, 180.0)
     radius = np.array([r])
     if rng.random() < .35 and ra1.size > 1:
         radius = np.minimum(r * rng.choice([0.0, 0.5, 1.0, 1.5], size=ra1.size, p=[.1, .3, .3, .3]), 180.0)
